@@ -94,6 +94,11 @@ theorem C06_accept_all_raw_view_is_accepted_view (cm : CMap) (p : Para) :
       paraText true cm { p with nodes := (p.nodes.flatMap acceptAllN).flatMap stripCommentN } :=
   paraText_acceptAll cm p
 
+/-- The same for the whole main story (paragraphs, nested tables) of the session after `accept_all_revisions`. -/
+theorem C06_accept_all_story_reads_the_same (cm : CMap) (s : Sess) :
+    containerText false cm s.acceptAllRevisions.doc.body = containerText true cm s.acceptAllRevisions.doc.body :=
+  containerText_acceptAll cm s.doc.body
+
 /-- … and so does any paragraph in which every change has been resolved one by one (its content opens no insertion,
 deletion or comment range any more). -/
 theorem C06_resolved_paragraph_reads_the_same (cm : CMap) (p : Para) (h : ∀ n ∈ p.nodes, quietNode n = true) :
